@@ -270,6 +270,9 @@ func runC09(r *Rec) {
 			ic = h.implCfg(ctx)
 		}()
 		var cases []txCase
+		if r.Rng.Intn(3) == 0 {
+			cases = append(cases, h.interfere(ic))
+		}
 		for _, p := range payers {
 			ms := h.randMsgs(p, recips, true)
 			fee, tag := h.randFee(ic, ms)
